@@ -269,6 +269,10 @@ class CallMixin:
         if isinstance(fv, FuncV):
             if isinstance(fv.func, FuncInfo):
                 recv = fv.recv
+                if isinstance(recv, Sym) and recv.op == 'phi' and len(recv.args) > 1 and all(isinstance(a, ParserV) for a in recv.args):
+                    # the same primitive on whichever parser the earlier branch left behind
+                    res = [self.call_v(FuncV(fv.func, recv=a, defcls=fv.defcls), args, kwargs, fr, node, star) for a in recv.args]
+                    return None if all(r is None for r in res) else Sym('phi', *res)
                 if isinstance(recv, (ParserV, ComposerV)) and not fv.func.name.startswith('_') \
                         and (fv.func.name.startswith('parse_') or fv.func.name.startswith('compose_')):
                     if self.deep and fr.depth < self.max_depth + 4:
